@@ -386,6 +386,14 @@ pub async fn sanitize_async_with_config<R: AsyncRead + AsyncSkip>(
         }
     }
 
+    // A seek-based `skip` past the end of the input succeeds, in which case the scan above ends as if the input were
+    // complete. Make sure the last box did not extend past the end of the input.
+    ensure_attach!(
+        reader.as_mut().stream_position().await? <= reader.as_mut().stream_len().await?,
+        ParseError::TruncatedBox,
+        "box extends past the end of the input",
+    );
+
     let Some(ftyp) = ftyp else {
         bail_attach!(ParseError::MissingRequiredBox(BoxType::FTYP));
     };
